@@ -99,7 +99,7 @@ def _worker(batch):
         for cid, kind, obj, dt, views in batch:
             tag = "s%d_%d" % (os.getpid(), cid)
             runs = runs_for_hydro(obj, dt, views, wd, tag) if kind == "hydro" else runs_for_record(obj, dt, views, wd, tag)
-            out.append({"id": cid, "runs": runs})
+            out.append({"id": cid, "runs": runs, "prop": "C07", "between": "time origins"})
     finally:
         rm(wd)
     return out
